@@ -23,7 +23,7 @@ Val.declare("ClsV", ("cv", z3.IntSort()))
 Val = Val.create()
 
 Ev = z3.Datatype("Ev")
-Ev.declare("mkEv", ("tag", z3.StringSort()), ("a", Val), ("b", Val), ("c", Val), ("d", Val))
+Ev.declare("mkEv", ("tag", z3.StringSort()), ("a", Val), ("b", Val), ("c", Val), ("d", Val), ("e", Val), ("f", Val), ("g", Val))
 Ev = Ev.create()
 
 SeqV = z3.SeqSort(Val)
